@@ -33,6 +33,7 @@ structure St where
   rootOf : Array Bool := #[]
   kills : Array (List Nat) := #[]
   killNull : Array Bool := #[]             -- the destructor of the id also calls del(NULL), after its kills
+  raises : Array Bool := #[]               -- the destructor of the id leaves by an exception, after its kills (`killraise`)
   strict : Bool := false                   -- ledger of the property text in the stopped window (witness files only)
   tainted : Bool := false                  -- a witness of a known finding ran: the model departs from the ledger on purpose
   stale : Bool := false                    -- `stalemark` left mark bits behind (until the next collection / sweep)
@@ -57,6 +58,13 @@ def St.K (s : St) (p : Nat) : List Nat :=
     | none => []
   else []
 
+def St.R (s : St) (p : Nat) : Bool :=
+  if p ≥ addr0 then
+    match s.uId[(p - addr0) / 8]? with
+    | some id => s.raises.getD id false
+    | none => false
+  else false
+
 def St.addrOfId (s : St) (id : Nat) : Option Nat := (s.idU.getD id none).map addrOfU
 
 def entriesStr (s : St) : String :=
@@ -71,7 +79,9 @@ def entriesStr (s : St) : String :=
 
 def stateStr (s : St) (dump : Bool) : String :=
   let r := s.reg
-  s!"n={r.n} ni={r.nitems} mi={r.mitems} lo={addrStr r.minptr} hi={addrStr r.maxptr} run={if r.running then 1 else 0} e={if dump then entriesStr s else "-"}"
+  let pend := if r.pending.isEmpty then "" else
+    " pend=" ++ joinOrDigest (r.pending.toList.map (fun o => match o with | none => "-" | some p => s.idOfAddr p))
+  s!"n={r.n} ni={r.nitems} mi={r.mitems} lo={addrStr r.minptr} hi={addrStr r.maxptr} run={if r.running then 1 else 0} e={if dump then entriesStr s else "-"}{pend}"
 
 def finStr (s : St) (t : List Nat) : String := joinOrDigest (t.map s.idOfAddr)
 
@@ -107,8 +117,18 @@ def growTo {α : Type} (a : Array α) (n : Nat) (d : α) : Array α :=
   if a.size ≥ n then a else a ++ Array.replicate (n - a.size) d
 
 /-- after an op: apply the deallocation trace to the ledger, print the line -/
-def finish (s : St) (name res : String) (t : List Nat) : IO St := do
+def finish (s : St) (name res : String) (t : List Nat) (ex : Bool := false) : IO St := do
   let mut s := s
+  let res := if ex then "raised" else res
+  if ex then
+    -- an exception unwound through the collector: objects were unregistered without being deallocated (the trace does not
+    -- list them); the driver's ledger follows the registry there.  Inside a release loop this is KF-C17-dtor-raise.
+    if !s.reg.pending.isEmpty then s := { s with tainted := true }
+    for id in [0:s.st.size] do
+      if s.st.getD id 0 == 1 then
+        match (s.idU.getD id none).map addrOfU with
+        | some p => if memPtr cfg s.reg p == some false then s := { s with st := s.st.setIfInBounds id 3 }
+        | none => pure ()
   for p in t do
     match s.uId[(p - addr0) / 8]? with
     | some id => s := { s with st := s.st.setIfInBounds id 3 }
@@ -148,7 +168,7 @@ def registerId (s : St) (id u : Nat) : Option St :=
       let k := id + 1
       some { s with idU := (growTo s.idU k none).setIfInBounds id (some u), uId := s.uId.insert u id, bucket := s.bucket.insert (u / 4) u,
                     st := growTo s.st k 0, rootOf := growTo s.rootOf k false, kills := growTo s.kills k [],
-                    killNull := growTo s.killNull k false }
+                    killNull := growTo s.killNull k false, raises := growTo s.raises k false }
 
 def main (args : List String) : IO Unit := do
   let lines ← Driver.inputLines args
@@ -186,9 +206,9 @@ def main (args : List String) : IO Unit := do
             let root := op == "newroot"
             -- the harness keeps the threshold out of reach for exact ops (white-box: mitems >= nitems + 1)
             let r0 := if s.reg.running && s.reg.mitems < s.reg.nitems + 1 then { s.reg with mitems := s.reg.nitems + 1 } else s.reg
-            match gcSet cfg s.K r0 p root [] with
+            match gcSetR cfg s.K s.R r0 p root [] with
             | none => abortLine op; halted := true
-            | some (r1, t) =>
+            | some (r1, t, _) =>
               if !r0.running && s.strict then
                 s := { s with reg := r1, st := s.st.setIfInBounds id 1, rootOf := s.rootOf.setIfInBounds id root, tainted := true }
               else
@@ -209,29 +229,29 @@ def main (args : List String) : IO Unit := do
           let p := addrOfU u
           -- the harness puts the threshold within reach: mitems = nitems, so nitems + 1 > mitems
           let r0 := if s.reg.running then { s.reg with mitems := s.reg.nitems } else s.reg
-          match gcSet cfg s.K r0 p false (ps ++ [p]) with
+          match gcSetR cfg s.K s.R r0 p false (ps ++ [p]) with
           | none => abortLine op; halted := true
-          | some (r1, t) =>
+          | some (r1, t, ex) =>
             if !r0.running && s.strict then
               s := { s with reg := r1, st := s.st.setIfInBounds id 1, rootOf := s.rootOf.setIfInBounds id false, tainted := true }
             else
               s := { s with reg := r1, st := s.st.setIfInBounds id (if r0.running then 1 else 2),
                             rootOf := s.rootOf.setIfInBounds id false, stale := s.stale && !r0.running }
-            s ← finish s op "ok" t
+            s ← finish s op "ok" t ex
       else if (op == "del" || op == "delroot") && a.size == 1 then
         match s.addrOfId a[0]! with
         | none => IO.println "O bad-op"
         | some p =>
-          match gcRem cfg s.K s.reg p with
+          match gcRemR cfg s.K s.R s.reg p with
           | none => abortLine op; halted := true
-          | some (r1, t) =>
+          | some (r1, t, ex) =>
             if !s.reg.running && s.strict && s.st.getD a[0]! 0 == 1 then
               s := { s with st := s.st.setIfInBounds a[0]! 3, tainted := true }     -- deleted, says the property text
-            s := { s with reg := r1 }; s ← finish s op "ok" t
+            s := { s with reg := r1 }; s ← finish s op "ok" t ex
       else if op == "delnull" && a.size == 0 then
-        match gcRem cfg s.K s.reg 0 with
+        match gcRemR cfg s.K s.R s.reg 0 with
         | none => abortLine op; halted := true
-        | some (r1, t) => s := { s with reg := r1 }; s ← finish s op "ok" t
+        | some (r1, t, ex) => s := { s with reg := r1 }; s ← finish s op "ok" t ex
       else if op == "dealloc" && a.size == 1 then
         let id := a[0]!
         let stt := s.st.getD id 0
@@ -242,13 +262,18 @@ def main (args : List String) : IO Unit := do
         | some p =>
           if stt == 1 then s := { s with tainted := true }
           s ← finish s op "ok" [p]
-      else if op == "delraw" && a.size == 1 then
+      else if (op == "delraw" || op == "delrawm") && a.size == 1 then
         let id := a[0]!
-        if s.st.getD id 0 != 2 then IO.println "O bad-op" else
-        -- del_raw: destruct + dealloc without the collector; the destructor's deletions go through GC_Rem
-        match exec cfg s.K (nestFuel s.reg + 1) s.reg (.fin (addrOfU ((s.idU.getD id none).getD 0))) with
+        let stt := s.st.getD id 0
+        if stt != (if op == "delrawm" then 1 else 2) then IO.println "O bad-op" else
+        -- del_raw: destruct + dealloc without the collector; the destructor's deletions go through GC_Rem.  For a registered
+        -- object (witness files only) the entry stays: KF-C17-dealloc-stale
+        if stt == 1 then s := { s with tainted := true, st := s.st.setIfInBounds id 3 }
+        match execR cfg s.K s.R (nestFuel s.reg + 1) s.reg (.fin (addrOfU ((s.idU.getD id none).getD 0))) with
         | none => abortLine op; halted := true
-        | some (r1, t) => s := { s with reg := r1 }; s ← finish s op "ok" t
+        | some (r1, t, ex) =>
+          if ex && stt == 2 then s := { s with st := s.st.setIfInBounds id 3 }     -- destructed, never deallocated
+          s := { s with reg := r1 }; s ← finish s op "ok" t ex
       else if op == "mem" && a.size == 1 then
         match s.addrOfId a[0]! with
         | none => IO.println "O bad-op"
@@ -264,9 +289,9 @@ def main (args : List String) : IO Unit := do
         match (if op == "collect" then gcMark cfg s.reg ps else markAll cfg s.reg ps) with
         | none => abortLine op; halted := true
         | some r1 =>
-          match gcSweep cfg s.K r1 with
+          match gcSweepR cfg s.K s.R r1 with
           | none => abortLine op; halted := true
-          | some (r2, t) => s := { s with reg := r2, stale := false }; s ← finish s op "ok" t
+          | some (r2, t, ex) => s := { s with reg := r2, stale := false }; s ← finish s op "ok" t ex
       else if op == "stalemark" then
         -- a mark phase left by an exception: GC_Mark_Item on each listed object, no sweep
         let ps := a.toList.filterMap s.addrOfId
@@ -281,9 +306,9 @@ def main (args : List String) : IO Unit := do
         match markAll cfg s.reg ps with
         | none => abortLine op; halted := true
         | some r1 =>
-          match gcSweep cfg s.K r1 with
+          match gcSweepR cfg s.K s.R r1 with
           | none => abortLine op; halted := true
-          | some (r2, t) => s := { s with reg := r2, stale := false }; s ← finish s op "ok" t
+          | some (r2, t, ex) => s := { s with reg := r2, stale := false }; s ← finish s op "ok" t ex
       else if op == "stop" && a.size == 0 then
         s := { s with reg := gcStop s.reg }; s ← finish s op "ok" []
       else if op == "start" && a.size == 0 then
@@ -294,12 +319,17 @@ def main (args : List String) : IO Unit := do
         IO.println s!"O kill {a[0]!} {a[1]!}"
       else if op == "unkill" && a.size == 1 then
         if (s.idU.getD a[0]! none).isNone then IO.println "O bad-op" else
-        s := { s with kills := s.kills.setIfInBounds a[0]! [], killNull := s.killNull.setIfInBounds a[0]! false }
+        s := { s with kills := s.kills.setIfInBounds a[0]! [], killNull := s.killNull.setIfInBounds a[0]! false,
+                      raises := s.raises.setIfInBounds a[0]! false }
         IO.println s!"O unkill {a[0]!}"
       else if op == "killnull" && a.size == 1 then
         if (s.idU.getD a[0]! none).isNone then IO.println "O bad-op" else
         s := { s with killNull := s.killNull.setIfInBounds a[0]! true }
         IO.println s!"O killnull {a[0]!}"
+      else if op == "killraise" && a.size == 1 then
+        if (s.idU.getD a[0]! none).isNone then IO.println "O bad-op" else
+        s := { s with raises := s.raises.setIfInBounds a[0]! true }
+        IO.println s!"O killraise {a[0]!}"
       else if op == "strict" && a.size == 0 then
         s := { s with strict := true }
         IO.println "O strict"
